@@ -42,15 +42,19 @@ def potential_cases(strength):
     cases = [
         ("tet", ("P", 1, {"swapped_normals": [2]}), "scalar", None, pts),
         ("strip3", ("DP", 0, {"segments": [1], "swapped_normals": [1]}), "scalar", 1.0 + 0.25j, pts),
-        ("tet", ("RWG", 0, {}), "mfield", 1.25, pts[:2]),
-        ("strip3", ("RWG", 0, {"include_boundary_dofs": True}), "efield", 0.75 + 0.5j, pts[:2]),
+        # supports that are NOT a prefix of the element list, non-uniform element areas, multipliers not all 1:
+        # every `for element_index, element in enumerate(support_elements)` loop must index grid data by `element`
+        ("tet", ("RWG", 0, {"segments": [1], "include_boundary_dofs": True}), "mfield", 1.25, pts[:2]),
+        ("tet", ("RWG", 0, {"segments": [1], "include_boundary_dofs": True}), "efield", 0.75 + 0.5j, pts[:2]),
+        ("octa", ("P", 1, {"support_elements": [1, 2, 3, 5, 6, 7]}), "scalar", None, pts[:2]),
     ]
     if strength == "thorough":
         cases += [
             ("fan4", ("DP", 1, {}), "scalar", None, pts),
             ("tet", ("P", 1, {"segments": [2], "include_boundary_dofs": True}), "scalar", 0.5, pts),
             ("tet", ("P-bary", 1, {}), "scalar", None, pts[:2]),
-            ("tet", ("RWG", 0, {"segments": [1], "include_boundary_dofs": True}), "efield", 1.0, pts[:2]),
+            ("strip3", ("RWG", 0, {"include_boundary_dofs": True}), "efield", 1.0, pts[:2]),
+            ("tet", ("RWG", 0, {}), "mfield", 0.75, pts[:2]),
             ("fan4", ("RWG", 0, {}), "mfield", 0.5 + 0.5j, pts[:2]),
         ]
     return cases
